@@ -7,6 +7,12 @@
   words available to it: the theorems hold for every word sequence).  `rotStep g k` is the
   round-robin step from position `k` (next entry in order, wrapping; reports a change unless there
   is a single entry); `pick g ds` is the random pick with the next PRNG word.
+
+  Scope notes (from an adversarial review of these statements, see DESIGN.md Appendix B.5):
+  * `listen_reports_failures` is about the client loop's bookkeeping (`sw`): the model of the loop
+    has no Profile field; a Profile whose `Switch` reports a change (several groups) is covered by the
+    Group theorems above and by the differential run of the real loop with real multi-group profiles,
+    not by one closed theorem. Read it as partial in that sense.
 -/
 import XMT.GroupLemmas
 import XMT.ClientLoopSwitch
